@@ -48,16 +48,17 @@ def sizes(tier):
 
 
 # ----------------------------------------------------------------------------------------------
-def gen_profile(rng):
-    N = rng.weighted([(rng.randint(2, 6), 3), (rng.randint(7, 20), 4), (rng.randint(21, 40), 2)])
-    kind = rng.weighted([("regular", 4), ("irregular", 3), ("clustered", 1), ("regular_float_range", 3)])
+def gen_profile(rng, big=False):
+    N = rng.weighted([(rng.randint(2, 6), 3), (rng.randint(7, 20), 4), (rng.randint(21, 40), 2)] + ([(rng.randint(41, 100), 3)] if big else []))
+    kind = rng.weighted([("regular", 4), ("irregular", 3), ("clustered", 1), ("regular_float_range", 3), ("surface_gap", 1.5), ("log", 1)])
     return {"N": N, "kind": kind, "hmin": rng.choice([0.0, 0.0, 10.0, round(rng.uniform(0, 500), 3)]),
             "hmax": rng.choice([20000.0, 25000.0, rng.uniform(5000, 30000)]), "fill": rng.randrange(10 ** 6),
             "decades": rng.choice([0, 1, 3, 6]), "wind": rng.chance(0.6)}
 
 
 def gen_plan(rng, tier, index=0):
-    profs = [gen_profile(rng.sub("prof", i)) for i in range(rng.weighted([(1, 4), (2, 3), (3, 1)]))]
+    big = tier == "thorough" and rng.chance(0.1)
+    profs = [gen_profile(rng.sub("prof", i), big) for i in range(rng.weighted([(1, 4), (2, 3), (3, 1)]))]
     r = rng.sub("hist")
     stub_run = r.chance(0.33)
     steps = []
@@ -70,10 +71,14 @@ def gen_plan(rng, tier, index=0):
             continue
         pi = r.randrange(len(profs))
         N = profs[pi]["N"]
-        m = r.weighted([("og", 6), ("eq", 3), ("gctm", 1)])
+        if x < 0.45:
+            # the caller refills the SAME array objects with another profile (a loop over a preallocated buffer)
+            steps.append({"op": "refill", "prof": pi, "fill": r.randrange(10 ** 6), "which": r.choice(["p", "p", "hp"])})
+            continue
+        m = r.weighted([("og", 6), ("eq", 3), ("gctm", 1.5)])
         if m == "og":
             L = r.randint(1, N - 1) if N > 2 else 1
-            steps.append({"op": "og", "prof": pi, "L": L, "R": r.weighted([(0, 1), (1, 2), (2, 2), (5, 1)]),
+            steps.append({"op": "og", "prof": pi, "L": L, "R": r.weighted([(0, 1), (1, 2), (2, 2), (5, 1)] + ([(10, 1)] if tier == "thorough" else [])),
                           "stub": ({"policy": r.choice(STUB_POLICIES), "arg": r.randrange(1000)} if stub_run else None)})
         elif m == "eq":
             steps.append({"op": "eq", "prof": pi, "L": r.randint(1, N - 1) if N > 2 else 1, "wind": profs[pi]["wind"] and r.chance(0.7)})
@@ -99,6 +104,11 @@ def build_profile(sp):
         h = numpy.linspace(sp["hmin"], sp["hmax"], N)
     elif sp["kind"] == "irregular":
         h = numpy.sort(rs.uniform(sp["hmin"], sp["hmax"], N))
+    elif sp["kind"] == "surface_gap":
+        # an isolated surface layer at exactly h = 0, a turbulence-free gap, then the free atmosphere
+        h = numpy.concatenate([[0.0], numpy.linspace(0.35 * sp["hmax"], sp["hmax"], max(1, N - 1))])[:N]
+    elif sp["kind"] == "log":
+        h = numpy.logspace(1.0, numpy.log10(max(sp["hmax"], 100.0)), N)
     else:
         centres = rs.uniform(sp["hmin"], sp["hmax"], 3)
         h = numpy.sort(numpy.abs(centres[rs.randint(0, 3, N)] + rs.normal(0, 200, N)))
@@ -283,6 +293,22 @@ def gctm_objective(hx, cx, L, mom0, hs=10000., cs=100e-15):
     return float(((m - mom0) ** 2).sum())
 
 
+def _independent_gctm(g_h, g_c, L, mom0, hs=10000., cs=100e-15):
+    import numpy
+    from scipy.optimize import minimize
+    x0 = numpy.hstack([g_h / hs, g_c / cs])
+
+    def f(x):
+        m = numpy.array([(x[L:] * x[:L] ** i).sum() for i in range(2 * L - 1)])
+        return float(((m - mom0) ** 2).sum())
+    try:
+        with numpy.errstate(all="ignore"):
+            r = minimize(f, x0, bounds=[(0, None)] * (2 * L), method="L-BFGS-B")
+        return float(r.fun) if numpy.isfinite(r.fun) else None
+    except Exception:
+        return None
+
+
 def execute(plan, keep_log=False):
     import numpy
     mods = screens.warm()
@@ -303,6 +329,15 @@ def execute(plan, keep_log=False):
         h, p, w = profs[pi]
         sp = plan["profiles"][pi]
         N = len(p)
+        if st["op"] == "refill":
+            h2, p2, w2 = build_profile(dict(sp, fill=st["fill"]))
+            p[:] = p2                          # same objects, new contents
+            if st.get("which") == "hp" and sp["kind"] in ("irregular", "clustered"):
+                h[:] = h2
+            res.count("fault.profile_arrays_refilled_in_place")
+            hist.append("refill")
+            log.add(si, "refill", pi, core.harr(p))
+            continue
         L = max(1, min(int(st["L"]), N - 1))
         hist_cls = "-".join(hist[-3:]) if hist else "fresh"
         if st["op"] == "og":
@@ -370,6 +405,13 @@ def execute(plan, keep_log=False):
             mom0 = numpy.array([(p / 100e-15 * (h / 10000.) ** i).sum() for i in range(2 * L - 1)])
             f0 = gctm_objective(numpy.asarray(g_h, dtype=float), numpy.asarray(g_c, dtype=float), L, mom0)
             f1 = gctm_objective(oh, oc, L, mom0)
+            # 'to optimiser accuracy': an independent L-BFGS-B run (checker's own objective, numerical gradient) from the same
+            # starting guess shows how far the objective can be reduced; the library must get within a wide margin of it
+            f_ind = _independent_gctm(numpy.asarray(g_h, dtype=float), numpy.asarray(g_c, dtype=float), L, mom0)
+            if f_ind is not None and f1 > max(1000.0 * f_ind, 0.01 * f0) and f0 > 0:
+                res.violate("objective", "C18:GCTM:did-not-optimise",
+                            "GCTM(N=%d, L=%d, %s heights): moment mismatch %.3e at the result (start %.3e) although an independent "
+                            "optimiser from the same start reaches %.3e" % (N, L, sp["kind"], f1, f0, f_ind), si)
             if not (f1 <= f0 * (1 + 1e-9) + 1e-300):
                 res.violate("objective", "C18:GCTM:objective-above-starting-point",
                             "GCTM(N=%d, L=%d): moment mismatch %.6e at the result exceeds %.6e at the equivalent-layers starting guess" % (N, L, f1, f0), si)
